@@ -56,6 +56,16 @@ def _go(n: Any) -> Any:
         raise Unsupported(ast.dump(n))
     if isinstance(n, ast.BinOp) and isinstance(n.op, (ast.Add, ast.Sub)):
         return (M.Add if isinstance(n.op, ast.Add) else M.Sub)(_go(n.left), _go(n.right))
+    if isinstance(n, ast.JoinedStr):
+        parts = []
+        for v in n.values:
+            if isinstance(v, ast.Constant) and isinstance(v.value, str):
+                parts.append(v.value)
+            elif isinstance(v, ast.FormattedValue) and v.conversion == -1 and v.format_spec is None:
+                parts.append(_go(v.value))
+            else:
+                raise Unsupported(ast.dump(n))
+        return M.JoinedStr(tuple(parts))
     if isinstance(n, ast.Call) and isinstance(n.func, ast.Name) and not n.keywords:
         if n.func.id in ("any", "all") and len(n.args) == 1 and isinstance(n.args[0], ast.GeneratorExp):
             g = n.args[0]
